@@ -35,6 +35,20 @@ func (g *callGen) argFor(t string, allowConst bool) string {
 	switch t {
 	case "int", "byte", "float64", "int8", "uint32":
 		if allowConst && k == 0 {
+			if g.rng.Intn(2) == 0 { // a constant near the bounds of the declared type
+				switch t {
+				case "uint32":
+					return []string{"3000000000", "4294967295", "2147483648"}[g.rng.Intn(3)]
+				case "byte":
+					return []string{"255", "128", "200"}[g.rng.Intn(3)]
+				case "int8":
+					return []string{"-128", "127", "-1"}[g.rng.Intn(3)]
+				case "float64":
+					return []string{"2.5", "1e10", "-0.5", "3"}[g.rng.Intn(4)]
+				case "int":
+					return []string{"2147483647", "-2147483648", "-7"}[g.rng.Intn(3)]
+				}
+			}
 			return []string{"7", "0", "100", "1"}[g.rng.Intn(4)]
 		}
 		return g.input(t)
